@@ -4,7 +4,7 @@ import ast
 from engine.astutil import U, calls, kwargs, single_defs, inline, walk_own, call_name, attr_tail, returns, enclosing_map
 from engine.cfg import CFG
 from engine.fresh import Freshness, FRESH, BORROWED, UNKNOWN
-from engine.norm import Norm
+from engine.norm import Norm, parse_expr
 from engine.repo import AnalysisError
 from . import common
 from . import C03, C11
@@ -216,20 +216,29 @@ def r4(ctx):
 def unique_filter(ctx, rule):
     f = ctx.fn("data.filter_dataset_to_unique_treatments")
     S = f.params[0]
-    src = ast.unparse(f.node)
-    loops = [n for n in walk_own(f.node) if isinstance(n, ast.For)]
-    ok = False
-    if len(loops) == 1 and U(loops[0].iter) == f"range({S}.treatment_arity)":
-        i = loops[0].target.id
-        app = [c for c in calls(loops[0], tail="append")]
-        init = [n for n in walk_own(f.node) if isinstance(n, ast.Assign) and isinstance(n.value, ast.List)]
-        ok = len(app) == 1 and U(app[0].args[0]).replace(" ", "") == f"{S}.treatment_ids[:,{i}]" and len(init) == 1 \
-            and [U(e) for e in init[0].value.elts] == [f"{S}.sample_ids"] and U(app[0].func.value) == U(init[0].targets[0])
-        r = returns(f.node)
-        env = single_defs(f.node)
-        ok = ok and len(r) == 1 and U(inline(r[0].value, env)).replace(" ", "") == f"{S}.subset(select_unique_zipped_numpy_arrays({U(init[0].targets[0])}))"
-    ctx.check(rule, f"{f.site()}::keys", ok, "keys = sample ids + every treatment column; result = subset(mask)",
-              "unique filter does not key on sample_ids plus all `treatment_arity` treatment columns of the same view")
+    env = single_defs(f.node)
+    N = Norm(strict=False)
+    usel = [c for c in calls(f.node) if U(c.func) == "select_unique_zipped_numpy_arrays"]
+    ctx.need(len(usel) == 1, f"{f.site()}: call of select_unique_zipped_numpy_arrays not found")
+    arg0 = usel[0].args[0]
+    cols = key_columns(f, arg0, env, S)
+    if cols is None:
+        raise AnalysisError(f"{f.site()}: the list of key columns `{U(arg0)[:60]}` is not built in a recognised way (literal / + / comprehension / append loop)")
+    has_sample = any(c == ("sample",) for c in cols)
+    treat_all = any(c == ("treatments", "all") for c in cols)
+    partial = [c for c in cols if c[0] == "treatment-col"]
+    other = [c for c in cols if c[0] == "other"]
+    r = returns(f.node)
+    ret_ok = False
+    if len(r) == 1 and isinstance(r[0].value, ast.Call) and U(r[0].value.func) == f"{S}.subset" and len(r[0].value.args) == 1:
+        m = r[0].value.args[0]
+        if isinstance(m, ast.Name) and m.id in env:
+            m = env[m.id]
+        ret_ok = m is usel[0]
+    ctx.check(rule, f"{f.site()}::keys", has_sample and treat_all and not partial and not other and ret_ok,
+              "keys = sample ids + every treatment column of the same view; result = subset(mask)",
+              f"unique filter keys are {cols}: it must key on {S}.sample_ids plus ALL `treatment_arity` treatment columns of the same view "
+              f"(and return {S}.subset(mask))")
     f = ctx.fn("common.select_unique_zipped_numpy_arrays")
     env = single_defs(f.node)
     arrs = f.params[0]
@@ -237,49 +246,121 @@ def unique_filter(ctx, rule):
     ok = False
     if len(uq) == 1:
         kw = kwargs(uq[0])
-        ok = U(inline(uq[0].args[0], env)).replace(" ", "") == f"np.vstack({arrs}).T" and U(kw.get("axis")) == "0" and U(kw.get("return_index")) == "True"
-    st = [n for n in walk_own(f.node) if isinstance(n, ast.Assign) and isinstance(n.targets[0], ast.Subscript)]
-    ok2 = False
-    if len(st) == 1 and isinstance(st[0].targets[0].value, ast.Name):
-        res = st[0].targets[0].value.id
-        ds = [n.value for n in walk_own(f.node) if isinstance(n, ast.Assign) and isinstance(n.targets[0], ast.Name) and n.targets[0].id == res]
-        d = ds[0] if len(ds) == 1 else None
-        idx = st[0].targets[0].slice
-        # index must be the second result of np.unique
-        tup = [n for n in walk_own(f.node) if isinstance(n, ast.Assign) and isinstance(n.targets[0], ast.Tuple) and uq and n.value is uq[0]]
-        ok2 = d is not None and isinstance(d, ast.Call) and call_name(d) == "np.zeros" and U(d.args[0]) == f"len({arrs}[0])" \
-            and U(kwargs(d).get("dtype")) == "bool" and bool(tup) and U(tup[0].targets[0].elts[1]) == U(idx) \
-            and isinstance(st[0].value, ast.Constant) and st[0].value.value is True
-        r = returns(f.node)
-        ok2 = ok2 and len(r) == 1 and U(r[0].value) == res
+        ok = N.key(inline(uq[0].args[0], env)) == N.key(parse_expr(f"np.vstack({arrs}).T")) and U(kw.get("axis")) == "0" and U(kw.get("return_index")) == "True"
     if not ok and uq:
-        # recognised-bad: mixed-radix packing `key = key * B + digit` without shifting digits to be non-negative.
-        # The key columns include treatment ids, whose domain contains CONTROL_SENTINEL_VALUE = -1, so with
-        # B = max + 1 two distinct rows can share a key ((s, 1, -1) and (s, 0, max)).
         packs = []
         for n in walk_own(f.node):
-            if isinstance(n, (ast.Assign, ast.AugAssign)):
-                v = n.value
-                tgt = U(n.targets[0]) if isinstance(n, ast.Assign) else U(n.target)
-                if isinstance(n, ast.Assign) and isinstance(v, ast.BinOp) and isinstance(v.op, ast.Add) and isinstance(v.left, ast.BinOp) \
-                        and isinstance(v.left.op, ast.Mult) and tgt in (U(v.left.left), U(v.left.right)):
-                    packs.append((n, v.right, v.left.right if U(v.left.left) == tgt else v.left.left))
+            if isinstance(n, ast.Assign) and isinstance(n.value, ast.BinOp) and isinstance(n.value.op, ast.Add) and isinstance(n.value.left, ast.BinOp) \
+                    and isinstance(n.value.left.op, ast.Mult) and U(n.targets[0]) in (U(n.value.left.left), U(n.value.left.right)):
+                tgt = U(n.targets[0])
+                packs.append((n, n.value.left.right if U(n.value.left.left) == tgt else n.value.left.left))
         if packs:
-            src = U(f.node)
-            shifted = any(x in src.replace(" ", "") for x in (".min()", "np.min(", "-CONTROL_SENTINEL_VALUE", "+1)", "np.unique(", )) and \
-                any(isinstance(n, ast.BinOp) and isinstance(n.op, ast.Sub) and "min" in U(n.right) for n in ast.walk(f.node))
+            shifted = any(isinstance(n, ast.BinOp) and isinstance(n.op, ast.Sub) and "min" in U(n.right) for n in ast.walk(f.node))
             if not shifted:
                 ctx.bad(rule, f"{f.site()}::first-occurrences",
-                        f"rows are packed into one integer by `{U(packs[0][0])}` with radix `{U(packs[0][2])}` but the digits are not shifted to be "
+                        f"rows are packed into one integer by `{U(packs[0][0])}` with radix `{U(packs[0][1])}` but the digits are not shifted to be "
                         f"non-negative: the key columns contain treatment ids whose domain includes the control sentinel -1, so distinct "
                         f"(sample, treatment) combinations collide and one experiment is dropped")
                 return
-        # a different de-duplication algorithm (np.unique over something other than the stacked columns):
-        # injectivity of a derived key is not decidable by this rule -> undecided, not a violation
         raise AnalysisError(f"{f.site()}: np.unique is applied to `{U(uq[0].args[0])[:60]}` (kwargs {sorted(kwargs(uq[0]))}), "
                             f"not row-wise to the stacked key columns; cannot decide whether distinct combinations stay distinct")
-    ctx.check(rule, f"{f.site()}::first-occurrences", ok and ok2, "row-wise np.unique(axis=0, return_index) marks first occurrences on fresh zeros",
-              "the unique-combination mask is not computed by a row-wise np.unique(..., axis=0, return_index=True) over the stacked columns")
+    if not uq:
+        raise AnalysisError(f"{f.site()}: no np.unique call - the de-duplication algorithm is not one this rule knows")
+    # the index result of np.unique marks the kept rows
+    first = None
+    for n in walk_own(f.node):
+        if isinstance(n, ast.Assign) and n.value is uq[0] and isinstance(n.targets[0], ast.Tuple) and len(n.targets[0].elts) == 2:
+            first = U(n.targets[0].elts[1])
+        if isinstance(n, ast.Assign) and isinstance(n.value, ast.Subscript) and n.value.value is uq[0] and U(n.value.slice) == "1":
+            first = U(n.targets[0])
+    r = returns(f.node)
+    ok2 = False
+    if first and len(r) == 1:
+        res = r[0].value
+        st = [n for n in walk_own(f.node) if isinstance(n, ast.Assign) and isinstance(n.targets[0], ast.Subscript)]
+        if isinstance(res, ast.Name) and len(st) == 1 and U(st[0].targets[0].value) == res.id:
+            ds = [n.value for n in walk_own(f.node) if isinstance(n, ast.Assign) and isinstance(n.targets[0], ast.Name) and n.targets[0].id == res.id]
+            d = ds[0] if len(ds) == 1 else None
+            ok2 = d is not None and isinstance(d, ast.Call) and call_name(d) == "np.zeros" and U(inline(d.args[0], env)) == f"len({arrs}[0])" and U(kwargs(d).get("dtype")) == "bool" \
+                and U(st[0].targets[0].slice) == first and isinstance(st[0].value, ast.Constant) and st[0].value.value is True
+        else:
+            e = inline(res, {k: v for k, v in env.items() if k != first})
+            ok2 = U(e).replace(" ", "") in (f"np.isin(np.arange(len({arrs}[0])),{first})", f"np.in1d(np.arange(len({arrs}[0])),{first})")
+    ctx.check(rule, f"{f.site()}::first-occurrences", ok and ok2, "row-wise np.unique(axis=0, return_index) marks exactly the first occurrences",
+              "the mask returned is not `True exactly at the first-occurrence indices of the row-wise np.unique`")
+
+
+def key_columns(f, e, env, S):
+    """classify the elements of the key-column list: ('sample',) | ('treatments','all') | ('treatment-col', i) | ('other', text)"""
+    tid = {f"{S}.treatment_ids"} | {k for k, v in env.items() if U(v) == f"{S}.treatment_ids"}
+    arity = {f"{S}.treatment_arity"} | {f"{t}.shape[1]" for t in tid}
+
+    def elem(x):
+        t = U(x).replace(" ", "")
+        if t == f"{S}.sample_ids":
+            return [("sample",)]
+        for T in tid:
+            if t.startswith(f"{T}[:,") and t.endswith("]"):
+                return [("treatment-col", t[len(T) + 3:-1])]
+        return [("other", t[:40])]
+
+    def comp(c):
+        if isinstance(c, (ast.ListComp, ast.GeneratorExp)) and len(c.generators) == 1 and not c.generators[0].ifs:
+            g = c.generators[0]
+            i = U(g.target)
+            it = U(g.iter).replace(" ", "")
+            el = U(c.elt).replace(" ", "")
+            if any(it == f"range({a})" for a in arity) and any(el == f"{T}[:,{i}]" for T in tid):
+                return [("treatments", "all")]
+            if any(it == f"{T}.T" for T in tid) and el == i:
+                return [("treatments", "all")]
+        return None
+
+    def walk(x):
+        if isinstance(x, ast.Name) and x.id in env:
+            return walk(env[x.id])
+        if isinstance(x, ast.Name):
+            # list built by `name = [..]` followed by name.append(..) in a loop over range(arity)
+            inits = [n for n in walk_own(f.node) if isinstance(n, ast.Assign) and U(n.targets[0]) == x.id and isinstance(n.value, ast.List)]
+            if len(inits) != 1:
+                return None
+            out = []
+            for y in inits[0].value.elts:
+                out += elem(y)
+            for lp in [n for n in walk_own(f.node) if isinstance(n, ast.For)]:
+                apps = [c for c in calls(lp, tail="append") if U(c.func.value) == x.id]
+                if not apps:
+                    continue
+                i = U(lp.target)
+                if any(U(lp.iter).replace(" ", "") == f"range({a})" for a in arity) and len(apps) == 1 and any(U(apps[0].args[0]).replace(" ", "") == f"{T}[:,{i}]" for T in tid):
+                    out.append(("treatments", "all"))
+                else:
+                    out.append(("other", U(apps[0])[:40]))
+            for c in calls(f.node, tail="append"):
+                if U(c.func.value) == x.id and not any(c in calls(lp) for lp in walk_own(f.node) if isinstance(lp, ast.For)):
+                    out += elem(c.args[0])
+            return out
+        if isinstance(x, ast.BinOp) and isinstance(x.op, ast.Add):
+            a, b = walk(x.left), walk(x.right)
+            return None if a is None or b is None else a + b
+        if isinstance(x, (ast.List, ast.Tuple)):
+            out = []
+            for y in x.elts:
+                if isinstance(y, ast.Starred):
+                    sub = walk(y.value)
+                    if sub is None:
+                        return None
+                    out += sub
+                else:
+                    out += elem(y)
+            return out
+        c = comp(x)
+        if c is not None:
+            return c
+        if isinstance(x, ast.Call) and call_name(x) == "list" and x.args:
+            return walk(x.args[0])
+        return None
+    return walk(e)
 
 
 def run(ctx):
